@@ -76,18 +76,28 @@ pub enum Decoded {
     Undecodable,
 }
 
+/// Deserialisation that survives a panicking decoder in the code under test (the decoders of
+/// keys are reachable from untrusted bytes; a panic there is itself a C15 observation, recorded
+/// by the panic hook, and must not take the harness down).
+pub fn safe_deserialize<T: serde::de::DeserializeOwned>(data: &[u8]) -> Option<T> {
+    match std::panic::catch_unwind(|| bincode::deserialize::<T>(data)) {
+        Ok(Ok(v)) => Some(v),
+        _ => None,
+    }
+}
+
 pub fn decode(ev: &TapEvent, data: &[u8]) -> Decoded {
     if !ev.to_listener {
         return Decoded::Raw;
     }
     match ev.svc {
-        SVC_CONSENSUS => match bincode::deserialize::<ConsensusMessage>(data) {
-            Ok(m) => Decoded::Cons(m),
-            Err(_) => Decoded::Undecodable,
+        SVC_CONSENSUS => match safe_deserialize::<ConsensusMessage>(data) {
+            Some(m) => Decoded::Cons(m),
+            None => Decoded::Undecodable,
         },
-        SVC_MEMPOOL => match bincode::deserialize::<MempoolMessage>(data) {
-            Ok(m) => Decoded::Memp(m),
-            Err(_) => Decoded::Undecodable,
+        SVC_MEMPOOL => match safe_deserialize::<MempoolMessage>(data) {
+            Some(m) => Decoded::Memp(m),
+            None => Decoded::Undecodable,
         },
         SVC_TX => Decoded::Raw,
         _ => Decoded::Undecodable,
@@ -234,7 +244,7 @@ impl Observer {
                             ConsensusMessage::TC(t) => t.round,
                             ConsensusMessage::SyncRequest(..) => 0,
                         };
-                        while self.max_round_seen < r {
+                        while self.max_round_seen < r && r - self.max_round_seen < 100_000 {
                             self.max_round_seen += 1;
                             let x = self.max_round_seen;
                             self.new_rounds.push(x);
